@@ -821,6 +821,10 @@ pub struct Overrides {
     pub key_scope: Option<(String, String, String)>,
     /// sign with this secret instead of l.secret
     pub secret: Option<String>,
+    /// sign with key material nobody needs a secret for, or with an intermediate key of the right secret:
+    /// 0 = 32 zero bytes, 1 = 32 0xff bytes, 2 = kDate, 3 = kRegion, 4 = kService, 5 = HMAC("", string-to-sign) key of
+    /// length zero, 6 = the signing key for the empty secret
+    pub key_variant: Option<u8>,
     /// names to put in SignedHeaders instead of l.signed (signed over as listed; sorted unless `keep_order`)
     pub signed: Option<Vec<String>>,
     pub algorithm: Option<String>,
@@ -950,8 +954,21 @@ pub fn render(l: &Logical, cfg: &Cfg, sp: &mut Speller, ov: &Overrides) -> (Wire
     let sts = rm::string_to_sign(&l.t.compact(), &scope, &creq);
     let secret = ov.secret.clone().unwrap_or_else(|| l.secret.clone());
     let (kd, kr, ks) = ov.key_scope.clone().unwrap_or((date.clone(), cfg.region.clone(), cfg.service.clone()));
-    let key = sha::derive(secret.as_bytes(), &kd, kr.as_bytes(), ks.as_bytes()).ksigning;
-    let sig = rm::signature(&key, &sts);
+    let chain = sha::derive(secret.as_bytes(), &kd, kr.as_bytes(), ks.as_bytes());
+    let key = match ov.key_variant {
+        None => chain.ksigning,
+        Some(0) | Some(5) => [0u8; 32],
+        Some(1) => [0xffu8; 32],
+        Some(2) => chain.kdate,
+        Some(3) => chain.kregion,
+        Some(4) => chain.kservice,
+        Some(_) => sha::derive(b"", &kd, kr.as_bytes(), ks.as_bytes()).ksigning,
+    };
+    let sig = if ov.key_variant == Some(5) {
+        sha::hex(&sha::hmac(b"", &sts))
+    } else {
+        rm::signature(&key, &sts)
+    };
     let presented = match (ov.signature.clone(), ov.signature_case) {
         (Some(s), _) => s,
         (None, Some(0)) => sig.to_ascii_uppercase(),
